@@ -218,6 +218,15 @@ EvRet == /\ ~Light /\ IsEvent("ret")
                 post == TmFor(ev.caches, p)
                 j  == Judge(pend[1].buf, allowed[p], tms[p], lasts[p], ev.out, post)
             IN /\ Emit(j.findings \cup Isolation(ev, p) \cup UnknownNotDecoded(ev.out, tms[p])
+                       \* C12, last sentence: the unknown-version error carries the unparsed bytes (the library: those
+                       \* after the version field; the whole rest of the buffer would also fit the statement)
+                       \cup {<<"C12", "filter", "unknown-version", "payload">> :
+                               i \in {q \in 1..Len(ev.out) : /\ ev.out[q].k = "err" /\ ev.out[q].kind = "UnknownVersion"
+                                                              /\ ev.out[q].inner # ev.out[q].rem
+                                                              /\ ev.out[q].inner # Rest(ev.out[q].rem, 3)}}
+                       \* C01's second sentence holds for every returned value, whether or not the reference explains it
+                       \cup {<<"C01", "post", "export", "panic">> : i \in {q \in 1..Len(ev.out) : ev.out[q].exp.st = "panic"}}
+                       \cup {<<"C01", "post", "common", "panic">> : i \in {q \in 1..Len(ev.out) : ev.out[q].common.st = "panic"}}
                        \cup CostFindings(pend[1].buf, ev, tms[p]) \cup JsonFindings(ev.json))
                \* coverage record: which antecedents held on this event (decided by the reference run)
                /\ PrintT("COV~~" \o ToString(l) \o "~~" \o Bool(j.matched) \o "~~" \o Bool(j.conf) \o "~~"
